@@ -92,6 +92,9 @@ var hostileValues = []string{
 	"{}", "[]", "null", "true", `"str"`, "[1,2", `{"a": 1}`, `{"a": "x"}`, `{"a": [1, "x", null]}`, `{"a": {"b": {"c": 1}}}`, `{"a": null}`,
 	`{"a": 1.5, "s": 2, "arr": "notarr", "o": [1]}`, `{"a": true, "s": {}, "arr": [[1]], "o": {"k": 1}}`, `{"arr": [1,2,3], "list": ["a"]}`,
 	"\xff\xfe", "\x00", "a\x00b", "\xc3\x28", "ü", "日本", "'", "\"", "`", "a'b", "(", ")", "%s%d", "\n", "\t", strings.Repeat("x", 300),
+	// round 12: long JSON documents that are damaged far behind their start
+	// (an offset into such a value is no offset into the query)
+	`{"a": 1, "pad": "` + strings.Repeat("p", 200) + `", "b": ]}`, `{"a": "` + strings.Repeat("q", 150),
 }
 
 var hostileKeys = []string{
